@@ -139,7 +139,8 @@ def main(argv=None):
                     jobs.append({"crate": ob["crate"], "features": ob.get("features"), "harness": ob["harness"],
                                  "timeout_s": ob.get("timeout_s", 900 if a.tier == "quick" else 3600)})
                 logdir = os.path.join(LOGS, pid)
-                kresults = kani.run_many(sc, jobs, logdir, a.jobs)
+                heavy = any(ob.get("heavy") for ob in kjobs + run_comp)
+                kresults = kani.run_many(sc, jobs, logdir, min(a.jobs, 3) if heavy else a.jobs)
                 # counterexamples for failed harnesses
                 from .replay import kani_counterexample
                 for ob in kjobs + run_comp:
